@@ -69,6 +69,14 @@ class Filters(Stream):
             {"doc": "a = " + " ".join(["word%d" % i for i in range(20)]) + "\n.help = \"" + "long help " * 12 + "\"\n",
              "expert": None, "level": 2, "prefix": "# ", "width": 50},
             {"doc": "s.t.x = 1\n.expert_level = 3\nb = 2\n", "expert": 1, "level": 3, "prefix": "", "width": None},
+            # attribute texts too long for one line that end (or start) with a double-quote character
+            {"doc": "strategy = individual\n  .help = 'Several words of help so that the text needs two lines at least; set strategy to \"none\"'\nb = 2\n",
+             "expert": None, "level": 1, "prefix": "", "width": 60},
+            {"doc": "s {\n  a = 1\n    .caption = '\"quoted\" at the start and a good many more words to pass the print width, then \"quoted\"'\n"
+                    "    .help = \"ends with an escaped quote after enough words to be wrapped over two lines at this width \\\"\"\n}\n",
+             "expert": None, "level": 2, "prefix": "# ", "width": 50},
+            {"doc": "a = 1\n  .help = '\"\" \"\" words words words words words words words words words words words words words words \"\"'\n",
+             "expert": None, "level": 3, "prefix": "", "width": 40},
         ]
 
     def cases(self, rng, tier):
